@@ -217,6 +217,8 @@ def run_component(ctx, comp, extra_args=None):
     cmd = [os.path.join(HARN, "bin", "sxdiff"), comp, "-seed", str(ctx.seed), "-tier", ctx.tier,
            "-cases", cases, "-stats", stats] + (extra_args or [])
     env = dict(GOENV, GOMEMLIMIT="6GiB", VERIF_WORK=ctx.work, VERIF_REPO=REPO)
+    if os.environ.get("VERIF_SEARCH"):
+        env["VERIF_SEARCH"] = os.environ["VERIF_SEARCH"]
     rc, out, dt = sh(cmd, cwd=ctx.work, env=env, timeout=registry.component_timeout(ctx.tier))
     if rc != 0:
         ctx.log(out[-3000:])
@@ -274,6 +276,20 @@ def run_component(ctx, comp, extra_args=None):
             (comp, st["evaluations"], st["distinct_nontrivial"], ndis, nspec, dt, dt2))
 
 
+def default_search(ctx, broken):
+    """a proof obligation is broken and the ordinary run found no failing input: run the property's components once
+    more in search mode (VERIF_SEARCH=1: the harness adds its slow / wide cases, e.g. thousands of consecutive read
+    failures, reply floods over several port chunks)"""
+    cfg = registry.PROPS[ctx.pid]
+    for comp in cfg.get("components", []):
+        if any(f for _, f, _ in ctx.violations):
+            break
+        if isinstance(comp, tuple):
+            run_component(ctx, comp[0], list(comp[1]))
+        else:
+            run_component(ctx, comp)
+
+
 def write_evidence(ctx, cfg):
     cov = ctx.coverage
     rules = "; ".join("%s: %s" % (k, v["rule"]) for k, v in cov["components"].items())
@@ -329,7 +345,7 @@ def main():
             # a proof obligation no longer checks.  The components above ARE the failing-input search on
             # the real code (Spec verdicts on observed outputs); a property-specific deeper search may follow.
             found = any(f for _, f, _ in ctx.violations)
-            srch = cfg.get("search")
+            srch = cfg.get("search") or default_search
             if not found and srch:
                 try:
                     os.environ["VERIF_SEARCH"] = "1"
